@@ -40,9 +40,7 @@ def isCompleteErr : Res β α → Bool
 /-- `parse_record_nocopy` -/
 def rpNocopy (R : RecordHeader → Parser β α) (s : RPState β) (r : RawRecord β) : RPState β × Res β α :=
   if s.inProgress then (s, .failure .NonEmpty)
-  else
-    let res := R r.hdr r.data
-    if isCompleteErr res then (s, .incomplete .unknown) else (s, res)
+  else if isCompleteErr (R r.hdr r.data) then (s, .incomplete .unknown) else (s, R r.hdr r.data)
 
 /-- `parse_record` -/
 def rpParse (R : RecordHeader → Parser β α) (s : RPState β) (r : RawRecord β) : RPState β × Res β α :=
